@@ -3,6 +3,7 @@ package wal
 import (
 	"bufio"
 	"encoding/binary"
+	"errors"
 	"fmt"
 	"hash/crc32"
 	"io"
@@ -11,6 +12,9 @@ import (
 	"sort"
 	"strings"
 )
+
+// errTruncatedEntry marks an entry whose last fragments are missing at the end of a file
+var errTruncatedEntry = errors.New("truncated entry")
 
 // Reader reads entries from WAL files
 type Reader struct {
@@ -46,7 +50,7 @@ func (r *Reader) ReadEntry() (*Entry, error) {
 			if err == io.EOF {
 				// If we have fragments, this is unexpected EOF
 				if len(r.fragments) > 0 {
-					return nil, fmt.Errorf("unexpected EOF with %d fragments", len(r.fragments))
+					return nil, fmt.Errorf("%w: unexpected EOF with %d fragments", errTruncatedEntry, len(r.fragments))
 				}
 				return nil, io.EOF
 			}
@@ -295,6 +299,17 @@ func ReplayWALFile(path string, handler EntryHandler) (*RecoveryStats, error) {
 				// Reached the end of the file
 				break
 			}
+
+			// A record that is cut short is what a crash leaves at the end of
+			// the log: everything completely written before it has been
+			// delivered, the remainder is not a record
+			if errors.Is(err, io.ErrUnexpectedEOF) || errors.Is(err, errTruncatedEntry) {
+				stats.EntriesSkipped++
+				break
+			}
+
+			// Fragments collected so far belong to the damaged entry
+			reader.fragments = reader.fragments[:0]
 
 			// Check if this is a corruption error
 			if strings.Contains(err.Error(), "corrupt") ||
